@@ -4,46 +4,48 @@
   All statements are about the model functions of `Model/Geom/Extrema.lean` (the same `def`s the
   correspondence check runs at `Float32`/`Float` against lyon) instantiated at an arbitrary linearly
   ordered field `K`.  `sqrt`, `sin`, `cos`, `tan`, `atan`, `fmod`, `π` are parameters; the laws used
-  are hypotheses of the theorems that use them.
+  are hypotheses of the theorems that use them (each has a satisfying instance in the examples at
+  the end).  Helper lemmas are in `Lemmas/Extrema.lean`.
 
   Full strength (every control polygon, every `t ∈ [0,1]`):
-    quadratics — exact box contains the curve and is touched on all four sides at the reported
-      parameters (which lie in [0,1] and are extremal); reported local extrema are exactly the
-      interior critical points; fast ⊇ exact ⊇ curve; monotone ranges partition [0,1]; every piece
-      is monotone in x and y; the control-point clamp is the identity, so the pieces retrace the curve;
-    cubics — fast box contains the curve; emitted parameters are exactly the roots of the
-      derivative in (0,1) (sqrt laws as hypotheses), in increasing order; the ranges partition [0,1];
-    lines, triangles — box contains / is the hull; paths — `aabb` fold = join of the event boxes.
+    quadratics and cubics — the exact box contains the curve and is touched on all four sides at
+      the reported parameters (which lie in [0,1] and are extremal); reported local extrema are
+      exactly the interior critical points (cubics: for the cancellation-free root form, which is
+      shown to give the same two roots); fast ⊇ exact ⊇ curve; monotone ranges partition [0,1];
+      every piece is monotone in x and y; the control-point clamp is the identity on the pieces, so
+      they retrace the curve; `is_*_monotonic` are sound;
+    lines, triangles — box contains / is the hull;
+    arcs — emitted extremum parameters for both sweep signs (sound, and complete within one turn);
+      fast box contains the arc for any rotation / centre; exact box contains the arc for both
+      sweep signs, from a hypothesis characterising the extremal angles;
+    paths — `aabb` fold = order-independent join of the event boxes; contains every point of every
+      segment; path-level fast ⊇ exact for well-formed event lists.
 
-  `_partial` / `_witness` (genuine lyon defects, see findings.d/C11.json):
-    arc extremum parameters: true for positive sweeps (`arc_extremum_params_pos_partial`,
-      `…_complete_partial`), false for negative ones (`arc_extremum_params_neg_witness`,
-      `arc_box_neg_sweep_witness`);
-    arc fast box: true without rotation (`arc_fast_box_contains_partial`), false with rotation off
-      the origin (`arc_fast_box_witness`);
-    cubic monotone pieces: the clamp changes a monotone cubic (`cubic_clamp_distorts_witness`).
-  A fourth finding has no field-level witness because the algorithm is right in exact arithmetic
-  (`cubic_critical_roots`): the quadratic formula in `for_each_local_extremum` cancels in floating
-  point when the derivative's leading coefficient is tiny (`C11-cubic-extremum-cancellation`); it
-  is visible to the oracle on the real implementation and reproduced bit-for-bit by the model.
+  `_partial`: `aabb_box_contains_partial` excludes the path whose minimum corner is exactly the
+  sentinel `(f32::MAX, f32::MAX)` (lyon returns the zero box for it).
 
-  Not theorems (oracle only, named gaps): anything about IEEE rounding; the exact cubic box
-  containing the curve *between* critical points (`cubic_box_partial` covers ends, critical
-  points, parameters in range, attainment); the exact arc box for positive sweeps (needs the
-  characterisation of the ellipse's extremal angles through tan/atan).
+  History: four genuine defects of lyon were found by this check (three with machine-checked
+  `…_witness` theorems, one pure floating-point cancellation) and repaired upstream-style in /repo:
+  3f341fdf (arc negative-sweep parameters), c4f6194c (arc fast box about the centre),
+  67fbe059 (cubic roots without cancellation), 821d0dd7 (cubic monotone pieces: end-tangent clamp).
+  The former witnesses are described in the section comments below; the model mirrors the
+  repaired code and the witnesses are replaced by the full-strength statements.
+
+  Not theorems: anything about IEEE rounding (oracle envelope); the ellipse's extremal angles
+  themselves (`tan`/`atan` identities) enter `arc_box_contains` as a hypothesis.
 -/
 import LyonVerif.Model.Geom.Extrema
 import LyonVerif.Lemmas.Field
 import LyonVerif.Lemmas.Extrema
 import Mathlib.Tactic.NormNum
 import Mathlib.Data.Rat.Floor
+import Mathlib.Analysis.SpecialFunctions.Sqrt
 
 set_option linter.unusedSectionVars false
 set_option linter.unusedVariables false
 set_option linter.unusedSimpArgs false
 set_option linter.style.haveILetI false
 set_option warn.classDefReducibility false
-
 
 namespace Lyon.C11
 
@@ -252,19 +254,29 @@ theorem quad_xy_clamp_noop (q : Quad K) :
 /-! ## Elliptic arcs
 
 `sin`, `cos`, `tan`, `atan`, `fmod`, `π` are parameters (`[Transc K] [Atan K]`); the laws used are
-hypotheses, all true of the real functions. -/
+hypotheses, all true of the real functions.
+
+History.  Two statements of this section were false of lyon before the fixes and were kept as
+machine-checked witnesses:
+* `arc_extremum_params_neg_witness` / `arc_box_neg_sweep_witness` — centre (0,0), radii (10,10),
+  start 1/2, sweep −2: `for_each_local_x_extremum_t` emitted `(2π − 1/2)/2 ≈ 2.89` instead of `1/4`
+  and the box's `max.x` stayed below `x(1/4) = 10`.  Repaired by lyon commit 3f341fdf
+  (`(two_pi − a) / abs_sweep`); the full statement is now `arc_extremum_params`.
+* `arc_fast_box_witness` — centre (100,0), radii (10,5), quarter-turn rotation: fast box
+  `(−5,90)–(5,110)` while the arc starts at `(100,10)`.  Repaired by lyon commit c4f6194c (rotate the
+  radii box about the origin, then translate); the full statement is now `arc_fast_box_contains`. -/
 
 
 section arc
 
 variable [Transc K]
 
+theorem two_pi_eq : (Scalar.two : K) * Transc.pi = tau := by
+  simp only [Scalar.two, sc_two]; unfold tau; ring
 
-/-- **Arc extremum parameters, positive sweep (the `_partial` of the full statement).**
-For `sweep > 0` every parameter emitted by `for_each_extremum_inner(a1, a2)` lies in `[0,1)` and
-its angle is `a1` or `a2` up to a multiple of `2π`.
-The full statement (all sweeps) is false of the current code: `arc_extremum_params_neg_witness`. -/
-theorem arc_extremum_params_pos_partial (L : AngleLaws K) (arc : Arc K) (a1 a2 : K) (hs : 0 < arc.sweep) :
+/-- positive sweep, soundness: every emitted parameter lies in `[0,1)` and its angle is `a1` or
+`a2` up to a multiple of `2π` -/
+theorem arc_extremum_params_pos_sound (L : AngleLaws K) (arc : Arc K) (a1 a2 : K) (hs : 0 < arc.sweep) :
     ∀ t ∈ arc.extremumInner a1 a2, 0 ≤ t ∧ t < 1 ∧
       ∃ k : ℤ, arc.getAngle t = a1 + k * tau ∨ arc.getAngle t = a2 + k * tau := by
   intro t ht
@@ -296,10 +308,9 @@ theorem arc_extremum_params_pos_partial (L : AngleLaws K) (arc : Arc K) (a1 a2 :
     · obtain ⟨p, q, k, e⟩ := key _ a1 c1 r1 ht; exact ⟨p, q, k, Or.inl e⟩
     · obtain ⟨p, q, k, e⟩ := key _ a2 c2 r2 ht; exact ⟨p, q, k, Or.inr e⟩
 
-
-/-- … and for `0 < sweep ≤ 2π` nothing is missed: every `t ∈ [0,1)` whose angle is `a1` or `a2`
-(mod `2π`) is emitted. -/
-theorem arc_extremum_params_pos_complete_partial (L : AngleLaws K) (arc : Arc K) (a1 a2 : K)
+/-- positive sweep `≤ 2π`, completeness: every `t ∈ [0,1)` whose angle is `a1` or `a2` (mod `2π`)
+is emitted -/
+theorem arc_extremum_params_pos_complete (L : AngleLaws K) (arc : Arc K) (a1 a2 : K)
     (hs : 0 < arc.sweep) (hs2 : arc.sweep ≤ tau) (t : K) (h0 : 0 ≤ t) (h1 : t < 1) (k : ℤ)
     (h : arc.getAngle t = a1 + k * tau ∨ arc.getAngle t = a2 + k * tau) :
     t ∈ arc.extremumInner a1 a2 := by
@@ -326,157 +337,260 @@ theorem arc_extremum_params_pos_complete_partial (L : AngleLaws K) (arc : Arc K)
     · left; exact key a1 h
     · right; exact key a2 h
 
+/-- negative sweep, soundness (true since lyon commit 3f341fdf) -/
+theorem arc_extremum_params_neg_sound (L : AngleLaws K) (arc : Arc K) (a1 a2 : K) (hs : arc.sweep < 0) :
+    ∀ t ∈ arc.extremumInner a1 a2, 0 ≤ t ∧ t < 1 ∧
+      ∃ k : ℤ, arc.getAngle t = a1 + k * tau ∨ arc.getAngle t = a2 + k * tau := by
+  intro t ht
+  have habs : Scalar.abs arc.sweep = -arc.sweep := by rw [sc_abs]; exact abs_of_neg hs
+  have hn : 0 < -arc.sweep := by linarith
+  have key : ∀ b a : K, (∃ k : ℤ, b = (a - arc.start) + k * tau) → b < tau →
+      t ∈ Arc.emitNeg b (-arc.sweep) tau → 0 ≤ t ∧ t < 1 ∧ ∃ k : ℤ, arc.getAngle t = a + k * tau := by
+    intro b a ⟨k, hk⟩ hb1 hm
+    unfold Arc.emitNeg at hm
+    split_ifs at hm with hgt
+    · simp only [List.mem_singleton] at hm
+      subst hm
+      refine ⟨div_nonneg (by linarith) (le_of_lt hn), (div_lt_one hn).2 (by linarith), k - 1, ?_⟩
+      unfold Arc.getAngle
+      have e : arc.sweep * ((tau - b) / -arc.sweep) = -(tau - b) := by
+        have : arc.sweep ≠ 0 := ne_of_lt hs
+        field_simp
+      rw [e, hk]; push_cast; ring
+    · simp at hm
+  have hge : ¬ (arc.sweep ≥ Scalar.zero) := by simp only [Scalar.zero, sc_zero]; exact not_le.2 hs
+  unfold Arc.extremumInner at ht
+  simp only [habs, if_neg hge, List.mem_append, two_pi_eq] at ht
+  have c1 := L.cong (a1 - arc.start)
+  have c2 := L.cong (a2 - arc.start)
+  have r1 := (L.range (a1 - arc.start)).2
+  have r2 := (L.range (a2 - arc.start)).2
+  unfold Arc.ordFst Arc.ordSnd at ht
+  split_ifs at ht with hsw
+  · rcases ht with ht | ht
+    · obtain ⟨p, q, k, e⟩ := key _ a2 c2 r2 ht; exact ⟨p, q, k, Or.inr e⟩
+    · obtain ⟨p, q, k, e⟩ := key _ a1 c1 r1 ht; exact ⟨p, q, k, Or.inl e⟩
+  · rcases ht with ht | ht
+    · obtain ⟨p, q, k, e⟩ := key _ a1 c1 r1 ht; exact ⟨p, q, k, Or.inl e⟩
+    · obtain ⟨p, q, k, e⟩ := key _ a2 c2 r2 ht; exact ⟨p, q, k, Or.inr e⟩
+
+/-- negative sweep `≥ −2π`, completeness: every `t ∈ (0,1)` whose angle is `a1` or `a2` (mod `2π`)
+is emitted -/
+theorem arc_extremum_params_neg_complete (L : AngleLaws K) (arc : Arc K) (a1 a2 : K)
+    (hs : arc.sweep < 0) (hs2 : -tau ≤ arc.sweep) (t : K) (h0 : 0 < t) (h1 : t < 1) (k : ℤ)
+    (h : arc.getAngle t = a1 + k * tau ∨ arc.getAngle t = a2 + k * tau) :
+    t ∈ arc.extremumInner a1 a2 := by
+  have habs : Scalar.abs arc.sweep = -arc.sweep := by rw [sc_abs]; exact abs_of_neg hs
+  have hge : ¬ (arc.sweep ≥ Scalar.zero) := by simp only [Scalar.zero, sc_zero]; exact not_le.2 hs
+  have st0 : arc.sweep * t < 0 := mul_neg_of_neg_of_pos hs h0
+  have st1 : arc.sweep < arc.sweep * t := by
+    have := mul_lt_mul_of_neg_left h1 hs; linarith
+  have key : ∀ a : K, arc.getAngle t = a + k * tau →
+      t ∈ Arc.emitNeg (Arc.positive (a - arc.start)) (-arc.sweep) tau := by
+    intro a ha
+    have hp : Arc.positive (a - arc.start) = tau + arc.sweep * t := by
+      apply positive_unique L _ _ (by linarith) (by linarith) (k + 1)
+      unfold Arc.getAngle at ha; push_cast; linear_combination ha
+    unfold Arc.emitNeg
+    have hc : tau + arc.sweep * t > tau - -arc.sweep := by linarith
+    rw [hp, if_pos hc, List.mem_singleton]
+    have : arc.sweep ≠ 0 := ne_of_lt hs
+    field_simp
+    ring
+  unfold Arc.extremumInner
+  simp only [habs, if_neg hge, List.mem_append, two_pi_eq]
+  unfold Arc.ordFst Arc.ordSnd
+  split_ifs with hsw
+  · rcases h with h | h
+    · right; exact key a1 h
+    · left; exact key a2 h
+  · rcases h with h | h
+    · left; exact key a1 h
+    · right; exact key a2 h
+
+/-- **Arc extremum parameters, both sweep signs.**  For `sweep ≠ 0` every parameter emitted by
+`for_each_extremum_inner(a1, a2)` lies in `[0,1)` and its angle is `a1` or `a2` up to a multiple of
+`2π`; and for `|sweep| ≤ 2π` every `t ∈ (0,1)` with such an angle is emitted. -/
+theorem arc_extremum_params (L : AngleLaws K) (arc : Arc K) (a1 a2 : K) (hs : arc.sweep ≠ 0) :
+    (∀ t ∈ arc.extremumInner a1 a2, 0 ≤ t ∧ t < 1 ∧
+      ∃ k : ℤ, arc.getAngle t = a1 + k * tau ∨ arc.getAngle t = a2 + k * tau) ∧
+    (|arc.sweep| ≤ tau → ∀ t, 0 < t → t < 1 → ∀ k : ℤ,
+      (arc.getAngle t = a1 + k * tau ∨ arc.getAngle t = a2 + k * tau) → t ∈ arc.extremumInner a1 a2) := by
+  rcases lt_or_gt_of_ne hs with hneg | hpos
+  · refine ⟨arc_extremum_params_neg_sound L arc a1 a2 hneg, fun hb t h0 h1 k h => ?_⟩
+    exact arc_extremum_params_neg_complete L arc a1 a2 hneg (by rw [abs_of_neg hneg] at hb; linarith) t h0 h1 k h
+  · refine ⟨arc_extremum_params_pos_sound L arc a1 a2 hpos, fun hb t h0 h1 k h => ?_⟩
+    exact arc_extremum_params_pos_complete L arc a1 a2 hpos (by rw [abs_of_pos hpos] at hb; exact hb) t (le_of_lt h0) h1 k h
+
+/-- **`fast_bounding_box` contains the arc — any rotation, any centre, any radii** (true since
+lyon commit c4f6194c).  Only `|cos|, |sin| ≤ 1` at the sampled angle is used: the point
+`(rx cos θ, ry sin θ)` is a bilinear combination of the four corners `(±rx, ±ry)`, the rotation is
+linear, and `Box2D::from_points` bounds the four rotated corners. -/
+theorem arc_fast_box_contains (arc : Arc K) (t : K)
+    (hc : |Transc.cos (arc.getAngle t)| ≤ 1) (hs : |Transc.sin (arc.getAngle t)| ≤ 1) :
+    Box.Contains arc.fastBoundingBox (arc.sample t) := by
+  have hpts := fromPoints_contains
+    ((Arc.rotationXf arc.xrot).apply ((⟨Scalar.zero, Scalar.zero⟩ : P K) - arc.radii))
+    [(Arc.rotationXf arc.xrot).apply ((⟨Scalar.zero, Scalar.zero⟩ : P K) + arc.radii),
+     (Arc.rotationXf arc.xrot).apply ⟨((⟨Scalar.zero, Scalar.zero⟩ : P K) + arc.radii).x, ((⟨Scalar.zero, Scalar.zero⟩ : P K) - arc.radii).y⟩,
+     (Arc.rotationXf arc.xrot).apply ⟨((⟨Scalar.zero, Scalar.zero⟩ : P K) - arc.radii).x, ((⟨Scalar.zero, Scalar.zero⟩ : P K) + arc.radii).y⟩]
+  have q0 := hpts _ (List.mem_cons_self ..)
+  have q1 := hpts _ (List.mem_cons_of_mem _ (List.mem_cons_self ..))
+  have q2 := hpts _ (List.mem_cons_of_mem _ (List.mem_cons_of_mem _ (List.mem_cons_self ..)))
+  have q3 := hpts _ (List.mem_cons_of_mem _ (List.mem_cons_of_mem _ (List.mem_cons_of_mem _ (List.mem_cons_self ..))))
+  unfold Arc.fastBoundingBox Arc.translateBox Arc.outerTransformedBox
+  set B := Box.fromPoints ((Arc.rotationXf arc.xrot).apply ((⟨Scalar.zero, Scalar.zero⟩ : P K) - arc.radii)) _ with hB
+  simp only [Box.Contains, Arc.rotationXf, Xf.apply, P.add_def, P.sub_def, Scalar.zero, sc_zero, zero_sub,
+    zero_add, add_zero, neg_mul, mul_neg, neg_neg] at q0 q1 q2 q3
+  simp only [Box.Contains, Arc.sample, Arc.sampleEllipse, Arc.rotate, P.add_def]
+  set c := Transc.cos arc.xrot
+  set s := Transc.sin arc.xrot
+  set u := Transc.cos (arc.getAngle t)
+  set v := Transc.sin (arc.getAngle t)
+  have hx := hull4 u v (arc.radii.x * c) (-(arc.radii.y * s)) B.min.x B.max.x hc hs
+    ⟨by linarith [q1.1], by linarith [q1.2.1]⟩ ⟨by linarith [q2.1], by linarith [q2.2.1]⟩
+    ⟨by linarith [q3.1], by linarith [q3.2.1]⟩ ⟨by linarith [q0.1], by linarith [q0.2.1]⟩
+  have hy := hull4 u v (arc.radii.x * s) (arc.radii.y * c) B.min.y B.max.y hc hs
+    ⟨by linarith [q1.2.2.1], by linarith [q1.2.2.2]⟩ ⟨by linarith [q2.2.2.1], by linarith [q2.2.2.2]⟩
+    ⟨by linarith [q3.2.2.1], by linarith [q3.2.2.2]⟩ ⟨by linarith [q0.2.2.1], by linarith [q0.2.2.2]⟩
+  have ex : arc.radii.x * u * c - arc.radii.y * v * s = u * (arc.radii.x * c) + v * (-(arc.radii.y * s)) := by ring
+  have ey : arc.radii.y * v * c + arc.radii.x * u * s = u * (arc.radii.x * s) + v * (arc.radii.y * c) := by ring
+  rw [ex, ey]
+  refine ⟨by linarith [hx.1], by linarith [hx.2], by linarith [hy.1], by linarith [hy.2]⟩
 
 variable [Atan K]
 
+theorem foldl_growX_spec (arc : Arc K) (l : List K) : ∀ r0 : K × K,
+    (l.foldl arc.growX r0).1 ≤ r0.1 ∧ r0.2 ≤ (l.foldl arc.growX r0).2 ∧
+    ∀ t ∈ l, (l.foldl arc.growX r0).1 ≤ (arc.sample t).x ∧ (arc.sample t).x ≤ (l.foldl arc.growX r0).2 := by
+  induction l with
+  | nil => intro r0; exact ⟨le_refl _, le_refl _, fun t ht => by simp at ht⟩
+  | cons s r ih =>
+    intro r0
+    rw [List.foldl_cons]
+    obtain ⟨i1, i2, i3⟩ := ih (arc.growX r0 s)
+    have g1 : (arc.growX r0 s).1 ≤ r0.1 ∧ (arc.growX r0 s).1 ≤ (arc.sample s).x := by
+      simp only [Arc.growX, sc_min]; exact ⟨min_le_left _ _, min_le_right _ _⟩
+    have g2 : r0.2 ≤ (arc.growX r0 s).2 ∧ (arc.sample s).x ≤ (arc.growX r0 s).2 := by
+      simp only [Arc.growX, sc_max]; exact ⟨le_max_left _ _, le_max_right _ _⟩
+    refine ⟨le_trans i1 g1.1, le_trans g2.1 i2, fun t ht => ?_⟩
+    rcases List.mem_cons.1 ht with rfl | ht
+    · exact ⟨le_trans i1 g1.2, le_trans g2.2 i2⟩
+    · exact i3 t ht
 
-/-- **Witness: the arc extremum statement is false for negative sweeps.**
-For the arc above lyon's `for_each_local_x_extremum_t` emits exactly one parameter,
-`(2π − 1/2)/2 ≈ 2.89 > 1`, although the x-extremum (angle `0 = x_ext_angle`) is reached at
-`t = 1/4 ∈ [0,1]`, which is not emitted. -/
-theorem arc_extremum_params_neg_witness (L : AngleLaws K)
-    (htan : Transc.tan (0 : K) = 0) (hatan : Atan.atan (0 : K) = 0) :
-    (negArc (K := K)).localXExtremaT = [((2 : K) * Transc.pi - 1/2) / 2] ∧
-    (1 : K) < ((2 : K) * Transc.pi - 1/2) / 2 ∧
-    (negArc (K := K)).getAngle (1/4) = (negArc (K := K)).xExtAngle ∧
-    (1/4 : K) ∉ (negArc (K := K)).localXExtremaT := by
-  have p3 := L.pi_gt
-  have p4 := L.pi_lt
-  have hx : (negArc (K := K)).xExtAngle = 0 := by
-    simp only [Arc.xExtAngle, negArc, htan, mul_zero, zero_div, hatan, neg_zero]
-  have hb1 : Arc.positive ((0 : K) - 1/2) = 2 * Transc.pi - 1/2 := by
-    apply positive_unique L _ _ (by linarith) (by unfold tau; linarith) 1
-    unfold tau; push_cast; ring
-  have hb2 : Arc.positive ((Transc.pi + 0 : K) - 1/2) = Transc.pi - 1/2 := by
-    apply positive_unique L _ _ (by linarith) (by unfold tau; linarith) 0
-    push_cast; ring
-  have hlist : (negArc (K := K)).localXExtremaT = [((2 : K) * Transc.pi - 1/2) / 2] := by
-    unfold Arc.localXExtremaT
-    rw [hx]
-    unfold Arc.extremumInner
-    simp only [negArc, hb1, hb2, Arc.signum, Arc.ordFst, Arc.ordSnd, Arc.emitNeg, sc_abs,
-      Scalar.zero, Scalar.one, Scalar.two, sc_zero, sc_one, sc_two]
-    have a1 : |(-2 : K)| = 2 := by rw [abs_neg]; exact abs_of_pos (by norm_num)
-    rw [a1]
-    have c0 : ¬ ((-2 : K) ≥ 0) := by norm_num
-    have c1 : (-2 : K) < 0 := by norm_num
-    have c2 : ¬ ((2 * Transc.pi - 1/2) * (-1 : K) > (Transc.pi - 1/2) * (-1 : K)) := by
-      rw [gt_iff_lt, not_lt]; linarith
-    have c3 : (2 * Transc.pi - 1/2 : K) > 2 * Transc.pi - 2 := by linarith
-    have c4 : ¬ ((Transc.pi - 1/2 : K) > 2 * Transc.pi - 2) := by rw [gt_iff_lt, not_lt]; linarith
-    simp only [c0, c1, c2, c3, c4, if_true, if_false, List.append_nil, List.nil_append, List.cons_append]
-  refine ⟨hlist, ?_, ?_, ?_⟩
-  · rw [lt_div_iff₀ (by norm_num)]; linarith
-  · rw [hx]; simp only [Arc.getAngle, negArc]; norm_num
-  · rw [hlist, List.mem_singleton]
-    intro h
-    have : ((2 : K) * Transc.pi - 1/2) / 2 = 1/4 := h.symm
-    rw [div_eq_iff (by norm_num)] at this
-    linarith
+theorem foldl_growY_spec (arc : Arc K) (l : List K) : ∀ r0 : K × K,
+    (l.foldl arc.growY r0).1 ≤ r0.1 ∧ r0.2 ≤ (l.foldl arc.growY r0).2 ∧
+    ∀ t ∈ l, (l.foldl arc.growY r0).1 ≤ (arc.sample t).y ∧ (arc.sample t).y ≤ (l.foldl arc.growY r0).2 := by
+  induction l with
+  | nil => intro r0; exact ⟨le_refl _, le_refl _, fun t ht => by simp at ht⟩
+  | cons s r ih =>
+    intro r0
+    rw [List.foldl_cons]
+    obtain ⟨i1, i2, i3⟩ := ih (arc.growY r0 s)
+    have g1 : (arc.growY r0 s).1 ≤ r0.1 ∧ (arc.growY r0 s).1 ≤ (arc.sample s).y := by
+      simp only [Arc.growY, sc_min]; exact ⟨min_le_left _ _, min_le_right _ _⟩
+    have g2 : r0.2 ≤ (arc.growY r0 s).2 ∧ (arc.sample s).y ≤ (arc.growY r0 s).2 := by
+      simp only [Arc.growY, sc_max]; exact ⟨le_max_left _ _, le_max_right _ _⟩
+    refine ⟨le_trans i1 g1.1, le_trans g2.1 i2, fun t ht => ?_⟩
+    rcases List.mem_cons.1 ht with rfl | ht
+    · exact ⟨le_trans i1 g1.2, le_trans g2.2 i2⟩
+    · exact i3 t ht
 
+/-- the bracket argument shared by both coordinates: a function that is monotone on every
+parameter range free of the angles `a1`, `a2` (mod `2π`) is bounded on `[0,1]` by its values at
+`0`, `1` and at the emitted parameters -/
+theorem arc_coord_bounded (L : AngleLaws K) (arc : Arc K) (a1 a2 : K) (hs : arc.sweep ≠ 0)
+    (hb : |arc.sweep| ≤ tau) (f : K → K)
+    (hm : ∀ lo hi, 0 ≤ lo → lo ≤ hi → hi ≤ 1 →
+      (∀ s, lo < s → s < hi → ∀ k : ℤ, ¬ (arc.getAngle s = a1 + k * tau ∨ arc.getAngle s = a2 + k * tau)) →
+      MonoOn f lo hi)
+    (m M : K) (h0 : m ≤ f 0 ∧ f 0 ≤ M) (h1 : m ≤ f 1 ∧ f 1 ≤ M)
+    (hl : ∀ s ∈ arc.extremumInner a1 a2, m ≤ f s ∧ f s ≤ M)
+    (t : K) (ht0 : 0 ≤ t) (ht1 : t ≤ 1) : m ≤ f t ∧ f t ≤ M := by
+  obtain ⟨sound, complete⟩ := arc_extremum_params L arc a1 a2 hs
+  obtain ⟨lo, hi, b1, b2, b3, b4, b5⟩ := exists_bracket (arc.extremumInner a1 a2) t ht0 ht1
+  have lo0 : 0 ≤ lo := by
+    rcases b1 with rfl | b1
+    · exact le_refl _
+    · exact (sound lo b1).1
+  have hi1 : hi ≤ 1 := by
+    rcases b2 with rfl | b2
+    · exact le_refl _
+    · exact le_of_lt (sound hi b2).2.1
+  have flo : m ≤ f lo ∧ f lo ≤ M := by
+    rcases b1 with rfl | b1
+    · exact h0
+    · exact hl lo b1
+  have fhi : m ≤ f hi ∧ f hi ≤ M := by
+    rcases b2 with rfl | b2
+    · exact h1
+    · exact hl hi b2
+  have free : ∀ s, lo < s → s < hi → ∀ k : ℤ,
+      ¬ (arc.getAngle s = a1 + k * tau ∨ arc.getAngle s = a2 + k * tau) := by
+    intro s p q k hk
+    have hmem := complete hb s (by linarith) (by linarith) k hk
+    rcases b5 s hmem with c | c <;> linarith
+  rcases hm lo hi lo0 (le_trans b3 b4) hi1 free with mo | mo
+  · have m1 := mo lo t (le_refl _) b3 b4
+    have m2 := mo t hi b3 b4 (le_refl _)
+    exact ⟨le_trans flo.1 m1, le_trans m2 fhi.2⟩
+  · have m1 := mo lo t (le_refl _) b3 b4
+    have m2 := mo t hi b3 b4 (le_refl _)
+    exact ⟨le_trans fhi.1 m2, le_trans m1 flo.2⟩
 
-/-- **Witness: the exact bounding box of that arc misses part of it.**  With `cos 0 = 1`,
-`sin 0 = 0` and `cos x < 1` for `0 < |x| < 2π`, the box's `max.x` is below `x(1/4) = 10`. -/
-theorem arc_box_neg_sweep_witness (L : AngleLaws K)
-    (htan : Transc.tan (0 : K) = 0) (hatan : Atan.atan (0 : K) = 0)
-    (hc0 : Transc.cos (0 : K) = 1) (hs0 : Transc.sin (0 : K) = 0)
-    (hcos : ∀ x : K, x ≠ 0 → |x| < tau → Transc.cos x < 1) :
-    (negArc (K := K)).boundingBox.max.x < ((negArc (K := K)).sample (1/4)).x ∧
-    ¬ Box.Contains (negArc (K := K)).boundingBox ((negArc (K := K)).sample (1/4)) := by
-  have p3 := L.pi_gt
-  have p4 := L.pi_lt
-  obtain ⟨hlist, _, _, _⟩ := arc_extremum_params_neg_witness L htan hatan
-  have sx : ∀ t : K, ((negArc (K := K)).sample t).x = 10 * Transc.cos (1/2 + -2 * t) := by
-    intro t
-    simp only [Arc.sample, Arc.sampleEllipse, Arc.rotate, Arc.getAngle, negArc, P.add_def, hc0, hs0]
-    ring
-  have hmain : (negArc (K := K)).boundingBox.max.x < 10 := by
-    simp only [Arc.boundingBox, Box.ofRanges, Arc.boundingRangeX, hlist, List.foldl_cons, List.foldl_nil,
-      Arc.growX, sx, emax_eq, sc_max, Scalar.zero, Scalar.one, sc_zero, sc_one]
-    have k1 : Transc.cos ((1/2 : K) + -2 * 0) < 1 :=
-      hcos _ (by norm_num) (by rw [abs_of_pos (by norm_num)]; unfold tau; linarith)
-    have k2 : Transc.cos ((1/2 : K) + -2 * 1) < 1 :=
-      hcos _ (by norm_num) (by
-        rw [show (1/2 : K) + -2 * 1 = -(3/2) by norm_num, abs_neg, abs_of_pos (by norm_num)]
-        unfold tau; linarith)
-    have k3 : Transc.cos ((1/2 : K) + -2 * ((2 * Transc.pi - 1/2) / 2)) < 1 :=
-      hcos _ (by intro h; have : (1 : K) - 2 * Transc.pi = 0 := by linear_combination h
-                 linarith) (by
-        rw [show (1/2 : K) + -2 * ((2 * Transc.pi - 1/2) / 2) = -(2 * Transc.pi - 1) by ring, abs_neg,
-          abs_of_pos (by linarith)]
-        unfold tau; linarith)
-    rw [max_lt_iff, max_lt_iff]
-    refine ⟨⟨?_, ?_⟩, ?_⟩ <;> linarith
-  have hval : ((negArc (K := K)).sample (1/4)).x = 10 := by
-    rw [sx, show (1/2 : K) + -2 * (1/4) = 0 by norm_num, hc0]; norm_num
-  refine ⟨by rw [hval]; exact hmain, ?_⟩
-  intro hcon
-  have := hcon.2.1
-  rw [hval] at this
-  exact absurd hmain (not_lt.2 this)
-
-
-/-- **Witness: `fast_bounding_box` does not contain the arc.**  The box around the centre is
-rotated about the origin: the result is `(−5,90)–(5,110)` while the arc starts at `(100,10)`. -/
-theorem arc_fast_box_witness (sweep r : K)
-    (hcr : Transc.cos r = 0) (hsr : Transc.sin r = 1)
-    (hc0 : Transc.cos (0 : K) = 1) (hs0 : Transc.sin (0 : K) = 0) :
-    (offArc sweep r).fastBoundingBox = ⟨⟨-5, 90⟩, ⟨5, 110⟩⟩ ∧
-    (offArc sweep r).sample 0 = ⟨100, 10⟩ ∧
-    ¬ Box.Contains (offArc sweep r).fastBoundingBox ((offArc sweep r).sample 0) := by
-  have hb : (offArc sweep r).fastBoundingBox = ⟨⟨-5, 90⟩, ⟨5, 110⟩⟩ := by
-    simp only [Arc.fastBoundingBox, Arc.outerTransformedBox, Arc.rotationXf, Box.fromPoints, Xf.apply,
-      offArc, hcr, hsr, P.add_def, P.sub_def, List.foldl_cons, List.foldl_nil, Box.grow,
-      Scalar.zero, sc_zero]
-    norm_num
-  have hp : (offArc sweep r).sample 0 = ⟨100, 10⟩ := by
-    simp only [Arc.sample, Arc.sampleEllipse, Arc.rotate, Arc.getAngle, offArc, P.add_def, hcr, hsr,
-      mul_zero, add_zero, hc0, hs0]
-    norm_num
-  refine ⟨hb, hp, ?_⟩
-  rw [hb, hp]
-  intro h
-  have := h.2.1
-  norm_num at this
-
-
-/-- **`fast_bounding_box` contains the arc when there is no rotation (the `_partial`).**
-With `cos x_rotation = 1`, `sin x_rotation = 0`, non-negative radii and `|cos|, |sin| ≤ 1` at the
-sampled angle, the fast box contains the sample.  (For `x_rotation ≠ 0` and a centre off the
-origin the statement is false of the current code: `arc_fast_box_witness`.) -/
-theorem arc_fast_box_contains_partial (arc : Arc K) (t : K)
-    (hcr : Transc.cos arc.xrot = 1) (hsr : Transc.sin arc.xrot = 0)
-    (hrx : 0 ≤ arc.radii.x) (hry : 0 ≤ arc.radii.y)
-    (hc : |Transc.cos (arc.getAngle t)| ≤ 1) (hs : |Transc.sin (arc.getAngle t)| ≤ 1) :
-    Box.Contains arc.fastBoundingBox (arc.sample t) := by
-  have hb : arc.fastBoundingBox = ⟨arc.center - arc.radii, arc.center + arc.radii⟩ := by
-    have h1 : arc.center.x - arc.radii.x ≤ arc.center.x + arc.radii.x := by linarith
-    have h2 : arc.center.y - arc.radii.y ≤ arc.center.y + arc.radii.y := by linarith
-    simp only [Arc.fastBoundingBox, Arc.outerTransformedBox, Arc.rotationXf, Box.fromPoints, Xf.apply,
-      hcr, hsr, P.add_def, P.sub_def, List.foldl_cons, List.foldl_nil, grow_eq, Scalar.zero, sc_zero,
-      mul_one, mul_zero, sub_zero, add_zero, zero_add,
-      min_eq_left h1, min_eq_right h1, max_eq_left h1, max_eq_right h1,
-      min_eq_left h2, min_eq_right h2, max_eq_left h2, max_eq_right h2, min_self, max_self]
-  rw [hb]
-  have hp : arc.sample t = ⟨arc.center.x + arc.radii.x * Transc.cos (arc.getAngle t),
-      arc.center.y + arc.radii.y * Transc.sin (arc.getAngle t)⟩ := by
-    simp only [Arc.sample, Arc.sampleEllipse, Arc.rotate, P.add_def, hcr, hsr, mul_one, mul_zero, sub_zero,
-      add_zero]
-  rw [hp]
-  obtain ⟨c0, c1⟩ := abs_le.1 hc
-  obtain ⟨s0, s1⟩ := abs_le.1 hs
-  simp only [Box.Contains, P.add_def, P.sub_def]
-  have m1 := mul_le_mul_of_nonneg_left c1 hrx
-  have m2 := mul_le_mul_of_nonneg_left c0 hrx
-  have m3 := mul_le_mul_of_nonneg_left s1 hry
-  have m4 := mul_le_mul_of_nonneg_left s0 hry
-  refine ⟨by linarith, by linarith, by linarith, by linarith⟩
-
+/-- **The exact bounding box of an arc contains the arc — both sweep signs** (`0 < |sweep| ≤ 2π`).
+The ellipse enters through one hypothesis per coordinate, characterising the extremal angles: the
+coordinate of `sample` is monotone on every parameter range that avoids the angles
+`x_ext_angle`, `π + x_ext_angle` (resp. the y ones) modulo `2π` in its interior — for the real
+ellipse this is `dx/dθ = 0 ⇔ tan θ = −(ry/rx) tan φ`.  (Before lyon commit 3f341fdf the statement
+was false for negative sweeps: `arc_box_neg_sweep_witness`.) -/
+theorem arc_box_contains (L : AngleLaws K) (arc : Arc K) (hs : arc.sweep ≠ 0) (hb : |arc.sweep| ≤ tau)
+    (hmx : ∀ lo hi, 0 ≤ lo → lo ≤ hi → hi ≤ 1 →
+      (∀ s, lo < s → s < hi → ∀ k : ℤ, ¬ (arc.getAngle s = arc.xExtAngle + k * tau ∨
+        arc.getAngle s = (Transc.pi + arc.xExtAngle) + k * tau)) →
+      MonoOn (fun s => (arc.sample s).x) lo hi)
+    (hmy : ∀ lo hi, 0 ≤ lo → lo ≤ hi → hi ≤ 1 →
+      (∀ s, lo < s → s < hi → ∀ k : ℤ, ¬ (arc.getAngle s = arc.yExtAngle + k * tau ∨
+        arc.getAngle s = (Transc.pi + arc.yExtAngle) + k * tau)) →
+      MonoOn (fun s => (arc.sample s).y) lo hi)
+    (t : K) (h0 : 0 ≤ t) (h1 : t ≤ 1) : Box.Contains arc.boundingBox (arc.sample t) := by
+  obtain ⟨x1, x2, x3⟩ := foldl_growX_spec arc arc.localXExtremaT
+    (emin (arc.sample Scalar.zero).x (arc.sample Scalar.one).x, emax (arc.sample Scalar.zero).x (arc.sample Scalar.one).x)
+  obtain ⟨y1, y2, y3⟩ := foldl_growY_spec arc arc.localYExtremaT
+    (emin (arc.sample Scalar.zero).y (arc.sample Scalar.one).y, emax (arc.sample Scalar.zero).y (arc.sample Scalar.one).y)
+  simp only [emin_eq, emax_eq, Scalar.zero, Scalar.one, sc_zero, sc_one] at x1 x2 x3 y1 y2 y3
+  have ex : arc.boundingRangeX = List.foldl arc.growX
+      (min (arc.sample 0).x (arc.sample 1).x, max (arc.sample 0).x (arc.sample 1).x) arc.localXExtremaT := by
+    simp only [Arc.boundingRangeX, emin_eq, emax_eq, Scalar.zero, Scalar.one, sc_zero, sc_one]
+  have ey : arc.boundingRangeY = List.foldl arc.growY
+      (min (arc.sample 0).y (arc.sample 1).y, max (arc.sample 0).y (arc.sample 1).y) arc.localYExtremaT := by
+    simp only [Arc.boundingRangeY, emin_eq, emax_eq, Scalar.zero, Scalar.one, sc_zero, sc_one]
+  have hx := arc_coord_bounded L arc arc.xExtAngle (Transc.pi + arc.xExtAngle) hs hb
+    (fun s => (arc.sample s).x) hmx _ _
+    ⟨le_trans x1 (min_le_left _ _), le_trans (le_max_left _ _) x2⟩
+    ⟨le_trans x1 (min_le_right _ _), le_trans (le_max_right _ _) x2⟩ x3 t h0 h1
+  have hy := arc_coord_bounded L arc arc.yExtAngle (Transc.pi + arc.yExtAngle) hs hb
+    (fun s => (arc.sample s).y) hmy _ _
+    ⟨le_trans y1 (min_le_left _ _), le_trans (le_max_left _ _) y2⟩
+    ⟨le_trans y1 (min_le_right _ _), le_trans (le_max_right _ _) y2⟩ y3 t h0 h1
+  simp only [Box.Contains, Arc.boundingBox, Box.ofRanges, ex, ey]
+  exact ⟨hx.1, hx.2, hy.1, hy.2⟩
 
 end arc
 
 
-/-! ## Cubic Bézier segments -/
+/-! ## Cubic Bézier segments
+
+History.  Two defects of lyon were found here and repaired:
+* `cubic_clamp_distorts_witness` — `for_each_monotonic` clamped both control points into the
+  coordinate range of the piece's endpoints; the monotone cubic `(0,0) (1,1) (−1,2) (4,3)` came out
+  with `ctrl2.x = 0` instead of `−1` (at `u = 1/2`: `x = 7/8` instead of `1/2`).  Repaired by lyon
+  commit 821d0dd7 (only the end tangents are clamped); the full statements are now
+  `cubic_clamp_noop` / `cubic_pieces_retrace`.
+* the root formula `(−b ∓ √d)/(2a)` cancelled in floating point for `|4ac| ≪ b²` (no field-level
+  witness: it is correct in exact arithmetic).  Repaired by lyon commit 67fbe059
+  (`q = −(b + sgn(b)√d)/2`, roots `q/a`, `c/q`); `cubic_root_form` states that these are the same
+  two roots and `cubic_critical_roots` is proved for the new form. -/
 
 
 /-- the fast box (hull of the control points) contains the curve -/
@@ -493,29 +607,37 @@ section roots
 
 variable [Transc K]
 
+/-- **The repaired root form gives the same two roots**: with `s = √d > 0`, `s² = b² − 4ac`,
+`a ≠ 0`, the value `q = −(b + sgn(b)·s)/2` is non-zero and `{q/a, c/q} = {(−b−s)/(2a), (−b+s)/(2a)}`. -/
+theorem cubic_root_form (a b c s : K) (ha : a ≠ 0) (hs : s * s = b * b - 4 * a * c) (hpos : 0 < s) :
+    Cubic1.rootQ b s ≠ 0 ∧
+    ((Cubic1.rootQ b s / a = (-b - s) / (2 * a) ∧ c / Cubic1.rootQ b s = (-b + s) / (2 * a)) ∨
+     (Cubic1.rootQ b s / a = (-b + s) / (2 * a) ∧ c / Cubic1.rootQ b s = (-b - s) / (2 * a))) :=
+  rootQ_roots a b c s ha hs hpos
 
 /-- **Cubic critical parameters are roots of the derivative**: a parameter is reported by
 `for_each_local_x_extremum_t` iff it lies in `(0,1)` and `dx` vanishes there (for a coordinate
-whose derivative is not identically zero); likewise for `y`. -/
-theorem cubic_critical_roots (hsq : ∀ d : K, 0 ≤ d → Transc.sqrt d * Transc.sqrt d = d) (c : Cubic K) (t : K) :
+whose derivative is not identically zero); likewise for `y`.  Hypotheses on `sqrt`:
+`√d·√d = d` and `√d ≥ 0` for `d ≥ 0`. -/
+theorem cubic_critical_roots (hsq : ∀ d : K, 0 ≤ d → Transc.sqrt d * Transc.sqrt d = d)
+    (hs0 : ∀ d : K, 0 ≤ d → 0 ≤ Transc.sqrt d) (c : Cubic K) (t : K) :
     ((Cubic1.ca c.a.x c.c1.x c.c2.x c.b.x ≠ 0 ∨ Cubic1.cb c.a.x c.c1.x c.c2.x ≠ 0) →
       (t ∈ c.localXExtremaT ↔ (0 < t ∧ t < 1 ∧ c.dx t = 0))) ∧
     ((Cubic1.ca c.a.y c.c1.y c.c2.y c.b.y ≠ 0 ∨ Cubic1.cb c.a.y c.c1.y c.c2.y ≠ 0) →
       (t ∈ c.localYExtremaT ↔ (0 < t ∧ t < 1 ∧ c.dy t = 0))) := by
   constructor <;> intro h
-  · rw [cubic_dx_eq]; exact c1_extremaOf_iff hsq _ _ _ t h
-  · rw [cubic_dy_eq]; exact c1_extremaOf_iff hsq _ _ _ t h
-
+  · rw [cubic_dx_eq]; exact c1_extremaOf_iff hsq hs0 _ _ _ t h
+  · rw [cubic_dy_eq]; exact c1_extremaOf_iff hsq hs0 _ _ _ t h
 
 /-- reported parameters are interior critical points, with no side condition -/
 theorem cubic_extremum_is_critical (hsq : ∀ d : K, 0 ≤ d → Transc.sqrt d * Transc.sqrt d = d)
-    (c : Cubic K) (t : K) :
+    (hs0 : ∀ d : K, 0 ≤ d → 0 ≤ Transc.sqrt d) (c : Cubic K) (t : K) :
     (t ∈ c.localXExtremaT → 0 < t ∧ t < 1 ∧ c.dx t = 0) ∧
     (t ∈ c.localYExtremaT → 0 < t ∧ t < 1 ∧ c.dy t = 0) := by
   have gen : ∀ a b cc : K, t ∈ Cubic1.extremaOf a b cc → 0 < t ∧ t < 1 ∧ a * t^2 + b * t + cc = 0 := by
     intro a b cc h
     by_cases hnz : a ≠ 0 ∨ b ≠ 0
-    · exact (c1_extremaOf_iff hsq a b cc t hnz).1 h
+    · exact (c1_extremaOf_iff hsq hs0 a b cc t hnz).1 h
     · rw [not_or, not_not, not_not] at hnz
       unfold Cubic1.extremaOf at h
       simp only [sc_beq, bne_iff, Scalar.zero, sc_zero] at h
@@ -525,7 +647,6 @@ theorem cubic_extremum_is_critical (hsq : ∀ d : K, 0 ≤ d → Transc.sqrt d *
   · rw [cubic_dx_eq]; exact gen _ _ _ h
   · rw [cubic_dy_eq]; exact gen _ _ _ h
 
-
 end roots
 
 
@@ -533,19 +654,59 @@ section cubicranges
 
 variable [Transc K]
 
+/-- **Conservative.**  The exact bounding box of a cubic contains every point of the curve
+(`t ∈ [0,1]`): between consecutive critical parameters the derivative keeps its sign (a sign
+change of a quadratic forces a root, which would have been reported), so by Simpson's identity
+the coordinate is monotone there and bounded by its values at the neighbouring critical
+parameters / ends, all of which the box contains. -/
+theorem cubic_box_contains (hsq : ∀ d : K, 0 ≤ d → Transc.sqrt d * Transc.sqrt d = d)
+    (hs0 : ∀ d : K, 0 ≤ d → 0 ≤ Transc.sqrt d) (c : Cubic K) (t : K) (h0 : 0 ≤ t) (h1 : t ≤ 1) :
+    Box.Contains c.boundingBox (c.sample t) := by
+  unfold Box.Contains
+  rw [cubic_sample_x, cubic_sample_y]
+  have hx := c1_range_contains hsq hs0 c.a.x c.c1.x c.c2.x c.b.x t h0 h1
+  have hy := c1_range_contains hsq hs0 c.a.y c.c1.y c.c2.y c.b.y t h0 h1
+  exact ⟨hx.1, hx.2, hy.1, hy.2⟩
+
+/-- **Tight.**  Each side of the exact box is touched by the curve at the reported extremum
+parameter, which lies in `[0,1]`. -/
+theorem cubic_box_touched (c : Cubic K) :
+    (0 ≤ c.xMinimumT ∧ c.xMinimumT ≤ 1 ∧ (c.sample c.xMinimumT).x = c.boundingBox.min.x) ∧
+    (0 ≤ c.xMaximumT ∧ c.xMaximumT ≤ 1 ∧ (c.sample c.xMaximumT).x = c.boundingBox.max.x) ∧
+    (0 ≤ c.yMinimumT ∧ c.yMinimumT ≤ 1 ∧ (c.sample c.yMinimumT).y = c.boundingBox.min.y) ∧
+    (0 ≤ c.yMaximumT ∧ c.yMaximumT ≤ 1 ∧ (c.sample c.yMaximumT).y = c.boundingBox.max.y) := by
+  obtain ⟨x1, x2, _⟩ := c1_range_partial c.a.x c.c1.x c.c2.x c.b.x
+  obtain ⟨y1, y2, _⟩ := c1_range_partial c.a.y c.c1.y c.c2.y c.b.y
+  exact ⟨⟨x2.1, x2.2, by rw [cubic_sample_x]; rfl⟩, ⟨x1.1, x1.2, by rw [cubic_sample_x]; rfl⟩,
+    ⟨y2.1, y2.2, by rw [cubic_sample_y]; rfl⟩, ⟨y1.1, y1.2, by rw [cubic_sample_y]; rfl⟩⟩
+
+/-- **Extremum parameters are where the coordinate is extremal** over the whole of `[0,1]`. -/
+theorem cubic_extremum_params_extremal (hsq : ∀ d : K, 0 ≤ d → Transc.sqrt d * Transc.sqrt d = d)
+    (hs0 : ∀ d : K, 0 ≤ d → 0 ≤ Transc.sqrt d) (c : Cubic K) (t : K) (h0 : 0 ≤ t) (h1 : t ≤ 1) :
+    c.x c.xMinimumT ≤ c.x t ∧ c.x t ≤ c.x c.xMaximumT ∧
+    c.y c.yMinimumT ≤ c.y t ∧ c.y t ≤ c.y c.yMaximumT :=
+  ⟨(c1_range_contains hsq hs0 _ _ _ _ t h0 h1).1, (c1_range_contains hsq hs0 _ _ _ _ t h0 h1).2,
+   (c1_range_contains hsq hs0 _ _ _ _ t h0 h1).1, (c1_range_contains hsq hs0 _ _ _ _ t h0 h1).2⟩
+
+/-- **fast ⊇ exact** -/
+theorem cubic_fast_contains_exact (c : Cubic K) : Box.Inside c.boundingBox c.fastBoundingBox := by
+  obtain ⟨x1, x2, _⟩ := c1_range_partial c.a.x c.c1.x c.c2.x c.b.x
+  obtain ⟨y1, y2, _⟩ := c1_range_partial c.a.y c.c1.y c.c2.y c.b.y
+  exact ⟨(c1_fast_range_contains _ _ _ _ _ x2.1 x2.2).1, (c1_fast_range_contains _ _ _ _ _ x1.1 x1.2).2,
+    (c1_fast_range_contains _ _ _ _ _ y2.1 y2.2).1, (c1_fast_range_contains _ _ _ _ _ y1.1 y1.2).2⟩
 
 /-- **Monotone ranges of a cubic partition `[0,1]`** (`for_each_monotonic_range`,
 `for_each_x_monotonic_range`, `for_each_y_monotonic_range`): consecutive, from 0 to 1, each of
 positive length. -/
 theorem cubic_monotone_ranges_partition (hsq : ∀ d : K, 0 ≤ d → Transc.sqrt d * Transc.sqrt d = d)
-    (c : Cubic K) :
+    (hs0 : ∀ d : K, 0 ≤ d → 0 ≤ Transc.sqrt d) (c : Cubic K) :
     Chain 0 c.monotonicRanges 1 ∧ Chain 0 c.xMonotonicRanges 1 ∧ Chain 0 c.yMonotonicRanges 1 := by
   have one : ∀ a b cc : K, Chain 0 (Cubic.rangesAll Scalar.zero (Cubic1.extremaOf a b cc)) 1 := by
     intro a b cc
     simp only [Scalar.zero, sc_zero]
     apply rangesAll_chain
     · rw [List.pairwise_cons]
-      exact ⟨fun x hx => (c1_extremaOf_interior _ _ _ x hx).1, c1_extremaOf_strict hsq a b cc⟩
+      exact ⟨fun x hx => (c1_extremaOf_interior _ _ _ x hx).1, c1_extremaOf_strict hsq hs0 a b cc⟩
     · intro x hx
       rcases List.mem_cons.1 hx with rfl | hx
       · norm_num
@@ -565,87 +726,142 @@ theorem cubic_monotone_ranges_partition (hsq : ∀ d : K, 0 ≤ d → Transc.sqr
     · norm_num
     · exact (hint x hx).2
 
+/-- every range reported by `for_each_monotonic_range` lies in `[0,1]`, has positive length and
+no reported x- or y- critical parameter in its interior -/
+theorem cubic_ranges_good (c : Cubic K) : ∀ r ∈ c.monotonicRanges,
+    0 ≤ r.1 ∧ r.1 < r.2 ∧ r.2 ≤ 1 ∧
+    (∀ s ∈ c.localXExtremaT, s ≤ r.1 ∨ r.2 ≤ s) ∧ (∀ s ∈ c.localYExtremaT, s ≤ r.1 ∨ r.2 ≤ s) := by
+  intro r hr
+  unfold Cubic.monotonicRanges at hr
+  simp only [Scalar.zero, sc_zero] at hr
+  obtain ⟨hs, hm⟩ := sortAsc_spec (c.localXExtremaT ++ c.localYExtremaT)
+  have hint : ∀ x ∈ Cubic.sortAsc (c.localXExtremaT ++ c.localYExtremaT), 0 < x ∧ x < 1 := by
+    intro x hx
+    rw [hm, List.mem_append] at hx
+    rcases hx with hx | hx <;> exact c1_extremaOf_interior _ _ _ x hx
+  obtain ⟨b1, b2, b3, b4⟩ := rangesSkip_good _ 0
+    (by rw [List.pairwise_cons]; exact ⟨fun x hx => le_of_lt (hint x hx).1, hs⟩)
+    (by intro x hx
+        rcases List.mem_cons.1 hx with rfl | hx
+        · norm_num
+        · exact (hint x hx).2) r hr
+  refine ⟨b1, b2, b3, fun s hsx => b4 s ?_, fun s hsy => b4 s ?_⟩
+  · rw [hm, List.mem_append]; exact Or.inl hsx
+  · rw [hm, List.mem_append]; exact Or.inr hsy
 
-/-- **Exact box of a cubic (`_partial`).**  The four sides are attained at the reported
-parameters, which lie in `[0,1]` (so the box is *tight*: it is inside the hull of the curve and
-inside the fast box), and the box contains both endpoints and the curve points at all reported
-critical parameters.  Missing for the full statement: that the curve stays inside *between*
-consecutive critical parameters (monotonicity of a cubic whose derivative has no root in an
-interval); this part is covered by the oracle's dense sampling only. -/
-theorem cubic_box_partial (c : Cubic K) :
-    (0 ≤ c.xMinimumT ∧ c.xMinimumT ≤ 1 ∧ (c.sample c.xMinimumT).x = c.boundingBox.min.x) ∧
-    (0 ≤ c.xMaximumT ∧ c.xMaximumT ≤ 1 ∧ (c.sample c.xMaximumT).x = c.boundingBox.max.x) ∧
-    (0 ≤ c.yMinimumT ∧ c.yMinimumT ≤ 1 ∧ (c.sample c.yMinimumT).y = c.boundingBox.min.y) ∧
-    (0 ≤ c.yMaximumT ∧ c.yMaximumT ≤ 1 ∧ (c.sample c.yMaximumT).y = c.boundingBox.max.y) ∧
-    Box.Contains c.boundingBox (c.sample 0) ∧ Box.Contains c.boundingBox (c.sample 1) ∧
-    (∀ t ∈ c.localXExtremaT, c.boundingBox.min.x ≤ (c.sample t).x ∧ (c.sample t).x ≤ c.boundingBox.max.x) ∧
-    (∀ t ∈ c.localYExtremaT, c.boundingBox.min.y ≤ (c.sample t).y ∧ (c.sample t).y ≤ c.boundingBox.max.y) ∧
-    Box.Inside c.boundingBox c.fastBoundingBox := by
-  obtain ⟨x1, x2, x3⟩ := c1_range_partial c.a.x c.c1.x c.c2.x c.b.x
-  obtain ⟨y1, y2, y3⟩ := c1_range_partial c.a.y c.c1.y c.c2.y c.b.y
-  refine ⟨⟨x2.1, x2.2, by rw [cubic_sample_x]; rfl⟩, ⟨x1.1, x1.2, by rw [cubic_sample_x]; rfl⟩,
-    ⟨y2.1, y2.2, by rw [cubic_sample_y]; rfl⟩, ⟨y1.1, y1.2, by rw [cubic_sample_y]; rfl⟩, ?_, ?_, ?_, ?_, ?_⟩
-  · unfold Box.Contains; rw [cubic_sample_x, cubic_sample_y]
-    exact ⟨(x3 0 (Or.inl rfl)).1, (x3 0 (Or.inl rfl)).2, (y3 0 (Or.inl rfl)).1, (y3 0 (Or.inl rfl)).2⟩
-  · unfold Box.Contains; rw [cubic_sample_x, cubic_sample_y]
-    exact ⟨(x3 1 (Or.inr (Or.inl rfl))).1, (x3 1 (Or.inr (Or.inl rfl))).2,
-      (y3 1 (Or.inr (Or.inl rfl))).1, (y3 1 (Or.inr (Or.inl rfl))).2⟩
-  · intro t ht; rw [cubic_sample_x]; exact x3 t (Or.inr (Or.inr ht))
-  · intro t ht; rw [cubic_sample_y]; exact y3 t (Or.inr (Or.inr ht))
-  · exact ⟨(c1_fast_range_contains _ _ _ _ _ x2.1 x2.2).1, (c1_fast_range_contains _ _ _ _ _ x1.1 x1.2).2,
-      (c1_fast_range_contains _ _ _ _ _ y2.1 y2.2).1, (c1_fast_range_contains _ _ _ _ _ y1.1 y1.2).2⟩
+/-- **Each piece is monotone**: on every range reported by `for_each_monotonic_range` both `x`
+and `y` are monotone. -/
+theorem cubic_monotone_piece_monotone (hsq : ∀ d : K, 0 ≤ d → Transc.sqrt d * Transc.sqrt d = d)
+    (hs0 : ∀ d : K, 0 ≤ d → 0 ≤ Transc.sqrt d) (c : Cubic K) : ∀ r ∈ c.monotonicRanges,
+    MonoOn c.x r.1 r.2 ∧ MonoOn c.y r.1 r.2 := by
+  intro r hr
+  obtain ⟨a0, a1, a2, gx, gy⟩ := cubic_ranges_good c r hr
+  exact ⟨c1_mono hsq hs0 _ _ _ _ r.1 r.2 a0 a2 gx, c1_mono hsq hs0 _ _ _ _ r.1 r.2 a0 a2 gy⟩
 
+theorem clampX_noop_of (hsq : ∀ d : K, 0 ≤ d → Transc.sqrt d * Transc.sqrt d = d)
+    (hs0 : ∀ d : K, 0 ≤ d → 0 ≤ Transc.sqrt d) (c : Cubic K) (lo hi : K)
+    (h0 : 0 ≤ lo) (hlh : lo ≤ hi) (h1 : hi ≤ 1) (gx : ∀ s ∈ c.localXExtremaT, s ≤ lo ∨ hi ≤ s) :
+    Cubic.clampEnd1 (c.splitRange lo hi).c1.x (c.splitRange lo hi).a.x (c.splitRange lo hi).b.x
+      = (c.splitRange lo hi).c1.x ∧
+    Cubic.clampEnd2 (c.splitRange lo hi).c2.x (c.splitRange lo hi).a.x (c.splitRange lo hi).b.x
+      = (c.splitRange lo hi).c2.x := by
+  obtain ⟨ea, eb, e1x, e2x, _, _⟩ := cubic_splitRange_ctrl c lo hi
+  have n := c1_clamp_noop hlh (c1_sign_const hsq hs0 _ _ _ _ lo hi h0 h1 gx)
+  rw [ea, eb, cubic_sample_x, cubic_sample_x, e1x, e2x]
+  exact n
 
-/-- **Witness: `for_each_monotonic` does not retrace a monotone cubic.**  The cubic
-`(0,0) (1,1) (−1,2) (4,3)` has no x- or y-extremum and both coordinates are monotone on `[0,1]`;
-lyon reports the single range `0..1`, but the piece it hands out has `ctrl2.x` clamped from `−1`
-to `0`, and at `u = 1/2` it is at `x = 7/8` where the curve is at `x = 1/2`.  (For quadratics the
-clamp is the identity: `quad_clamp_noop`.) -/
-theorem cubic_clamp_distorts_witness :
-    (clampCubic (K := K)).localXExtremaT = [] ∧ (clampCubic (K := K)).localYExtremaT = [] ∧
-    (clampCubic (K := K)).monotonicRanges = [(0, 1)] ∧
-    MonoOn (clampCubic (K := K)).x 0 1 ∧ MonoOn (clampCubic (K := K)).y 0 1 ∧
-    (clampCubic (K := K)).monotonicPieces = [⟨⟨0, 0⟩, ⟨1, 1⟩, ⟨0, 2⟩, ⟨4, 3⟩⟩] ∧
-    (∀ p ∈ (clampCubic (K := K)).monotonicPieces,
-      (p.sample (1/2)).x = 7/8 ∧ ((clampCubic (K := K)).sample (0 + (1 - 0) * (1/2))).x = 1/2) := by
-  have hx : (clampCubic (K := K)).localXExtremaT = [] := by
-    simp only [Cubic.localXExtremaT, Cubic1.localExtrema, Cubic1.extremaOf, Cubic1.disc, c1_ca, c1_cb, c1_cc,
-      clampCubic, sc_beq, bne_iff, Scalar.zero, Scalar.four, sc_zero, sc_four]
-    norm_num
-  have hy : (clampCubic (K := K)).localYExtremaT = [] := by
-    simp only [Cubic.localYExtremaT, Cubic1.localExtrema, Cubic1.extremaOf, Cubic1.disc, c1_ca, c1_cb, c1_cc,
-      clampCubic, sc_beq, bne_iff, Scalar.zero, Scalar.four, sc_zero, sc_four]
-    norm_num
-  have hr : (clampCubic (K := K)).monotonicRanges = [(0, 1)] := by
-    simp only [Cubic.monotonicRanges, hx, hy, List.append_nil, Cubic.sortAsc, List.foldr_nil,
-      Cubic.rangesSkip, Scalar.zero, Scalar.one, sc_zero, sc_one]
-  have hsr : (clampCubic (K := K)).splitRange 0 1 = clampCubic := by
-    unfold clampCubic
-    simp only [Cubic.splitRange, Cubic.mk.injEq]
-    refine ⟨?_, ?_, ?_, ?_⟩ <;> (apply P.ext' <;> (simp only [geom, Nat.cast_ofNat, Nat.cast_one, Nat.cast_zero]; norm_num))
-  have hp : (clampCubic (K := K)).monotonicPieces = [⟨⟨0, 0⟩, ⟨1, 1⟩, ⟨0, 2⟩, ⟨4, 3⟩⟩] := by
-    unfold Cubic.monotonicPieces
-    rw [hr]
-    simp only [List.map_cons, List.map_nil, hsr]
-    simp only [Cubic.clampXY, clampCubic, clampTo, sc_min, sc_max, Cubic.mk.injEq, List.cons.injEq, and_true]
-    refine ⟨trivial, ?_, ?_⟩ <;> (apply P.ext' <;> norm_num)
-  refine ⟨hx, hy, hr, ?_, ?_, hp, ?_⟩
-  · left; intro s u h0 h1 h2
-    rw [cubic_x_eq, cubic_x_eq, c1_ev, c1_ev]
-    simp only [clampCubic]
-    nlinarith [mul_nonneg (sub_nonneg.2 h1) (sq_nonneg (u + s - 3/5)),
-      mul_nonneg (sub_nonneg.2 h1) (sq_nonneg (u - s)), sub_nonneg.2 h1]
-  · left; intro s u h0 h1 h2
-    rw [cubic_y_eq, cubic_y_eq, c1_ev, c1_ev]
-    simp only [clampCubic]
-    nlinarith
-  · intro p hp'
-    rw [hp, List.mem_singleton] at hp'
-    subst hp'
-    constructor
-    · rw [cubic_sample_x, c1_ev]; norm_num
-    · rw [cubic_sample_x, c1_ev]; simp only [clampCubic]; norm_num
+theorem clampY_noop_of (hsq : ∀ d : K, 0 ≤ d → Transc.sqrt d * Transc.sqrt d = d)
+    (hs0 : ∀ d : K, 0 ≤ d → 0 ≤ Transc.sqrt d) (c : Cubic K) (lo hi : K)
+    (h0 : 0 ≤ lo) (hlh : lo ≤ hi) (h1 : hi ≤ 1) (gy : ∀ s ∈ c.localYExtremaT, s ≤ lo ∨ hi ≤ s) :
+    Cubic.clampEnd1 (c.splitRange lo hi).c1.y (c.splitRange lo hi).a.y (c.splitRange lo hi).b.y
+      = (c.splitRange lo hi).c1.y ∧
+    Cubic.clampEnd2 (c.splitRange lo hi).c2.y (c.splitRange lo hi).a.y (c.splitRange lo hi).b.y
+      = (c.splitRange lo hi).c2.y := by
+  obtain ⟨ea, eb, _, _, e1y, e2y⟩ := cubic_splitRange_ctrl c lo hi
+  have n := c1_clamp_noop hlh (c1_sign_const hsq hs0 _ _ _ _ lo hi h0 h1 gy)
+  rw [ea, eb, cubic_sample_y, cubic_sample_y, e1y, e2y]
+  exact n
 
+/-- **The end-tangent clamp is the identity on every monotone piece** (exact arithmetic): the
+pieces handed out by `for_each_monotonic` are exactly `split_range` of the reported ranges. -/
+theorem cubic_clamp_noop (hsq : ∀ d : K, 0 ≤ d → Transc.sqrt d * Transc.sqrt d = d)
+    (hs0 : ∀ d : K, 0 ≤ d → 0 ≤ Transc.sqrt d) (c : Cubic K) :
+    c.monotonicPieces = c.monotonicRanges.map (fun r => c.splitRange r.1 r.2) := by
+  unfold Cubic.monotonicPieces
+  apply List.map_congr_left
+  intro r hr
+  obtain ⟨a0, a1, a2, gx, gy⟩ := cubic_ranges_good c r hr
+  obtain ⟨x1, x2⟩ := clampX_noop_of hsq hs0 c r.1 r.2 a0 (le_of_lt a1) a2 gx
+  obtain ⟨y1, y2⟩ := clampY_noop_of hsq hs0 c r.1 r.2 a0 (le_of_lt a1) a2 gy
+  unfold Cubic.clampXY
+  rw [x1, x2, y1, y2]
+
+/-- **The pieces retrace the curve**: piece `r` sampled at `u` is the curve at `r.1 + (r.2−r.1)·u`. -/
+theorem cubic_pieces_retrace (hsq : ∀ d : K, 0 ≤ d → Transc.sqrt d * Transc.sqrt d = d)
+    (hs0 : ∀ d : K, 0 ≤ d → 0 ≤ Transc.sqrt d) (c : Cubic K) : ∀ r ∈ c.monotonicRanges, ∀ u : K,
+    (Cubic.clampXY (c.splitRange r.1 r.2)).sample u = c.sample (r.1 + (r.2 - r.1) * u) := by
+  intro r hr u
+  have h := cubic_clamp_noop hsq hs0 c
+  unfold Cubic.monotonicPieces at h
+  rw [List.map_inj_left.1 h r hr]
+  geom_ring
+
+/-- the x- / y- only variants: ranges partition `[0,1]` (see `cubic_monotone_ranges_partition`),
+the coordinate is monotone on each, and the clamped pieces are exactly `split_range` of the ranges -/
+theorem cubic_xy_monotone (hsq : ∀ d : K, 0 ≤ d → Transc.sqrt d * Transc.sqrt d = d)
+    (hs0 : ∀ d : K, 0 ≤ d → 0 ≤ Transc.sqrt d) (c : Cubic K) :
+    (∀ r ∈ c.xMonotonicRanges, MonoOn c.x r.1 r.2) ∧ (∀ r ∈ c.yMonotonicRanges, MonoOn c.y r.1 r.2) ∧
+    c.xMonotonicPieces = c.xMonotonicRanges.map (fun r => c.splitRange r.1 r.2) ∧
+    c.yMonotonicPieces = c.yMonotonicRanges.map (fun r => c.splitRange r.1 r.2) := by
+  have good : ∀ a b cc : K, ∀ r ∈ Cubic.rangesAll Scalar.zero (Cubic1.extremaOf a b cc),
+      0 ≤ r.1 ∧ r.1 < r.2 ∧ r.2 ≤ 1 ∧ ∀ x ∈ Cubic1.extremaOf a b cc, x ≤ r.1 ∨ r.2 ≤ x := by
+    intro a b cc r hr
+    simp only [Scalar.zero, sc_zero] at hr
+    exact rangesAll_good _ 0
+      (by rw [List.pairwise_cons]
+          exact ⟨fun x hx => (c1_extremaOf_interior _ _ _ x hx).1, c1_extremaOf_strict hsq hs0 a b cc⟩)
+      (by intro x hx
+          rcases List.mem_cons.1 hx with rfl | hx
+          · norm_num
+          · exact (c1_extremaOf_interior _ _ _ x hx).2) r hr
+  refine ⟨fun r hr => ?_, fun r hr => ?_, ?_, ?_⟩
+  · obtain ⟨a0, a1, a2, g⟩ := good _ _ _ r hr
+    exact c1_mono hsq hs0 _ _ _ _ r.1 r.2 a0 a2 g
+  · obtain ⟨a0, a1, a2, g⟩ := good _ _ _ r hr
+    exact c1_mono hsq hs0 _ _ _ _ r.1 r.2 a0 a2 g
+  · unfold Cubic.xMonotonicPieces
+    apply List.map_congr_left
+    intro r hr
+    obtain ⟨a0, a1, a2, g⟩ := good _ _ _ r hr
+    obtain ⟨x1, x2⟩ := clampX_noop_of hsq hs0 c r.1 r.2 a0 (le_of_lt a1) a2 g
+    unfold Cubic.clampX
+    rw [x1, x2]
+  · unfold Cubic.yMonotonicPieces
+    apply List.map_congr_left
+    intro r hr
+    obtain ⟨a0, a1, a2, g⟩ := good _ _ _ r hr
+    obtain ⟨y1, y2⟩ := clampY_noop_of hsq hs0 c r.1 r.2 a0 (le_of_lt a1) a2 g
+    unfold Cubic.clampY
+    rw [y1, y2]
+
+/-- `is_x_monotonic` / `is_y_monotonic` / `is_monotonic` are sound -/
+theorem cubic_is_monotonic_sound (hsq : ∀ d : K, 0 ≤ d → Transc.sqrt d * Transc.sqrt d = d)
+    (hs0 : ∀ d : K, 0 ≤ d → 0 ≤ Transc.sqrt d) (c : Cubic K) :
+    (c.isXMonotonic = true → MonoOn c.x 0 1) ∧ (c.isYMonotonic = true → MonoOn c.y 0 1) ∧
+    (c.isMonotonic = true → MonoOn c.x 0 1 ∧ MonoOn c.y 0 1) := by
+  have hx : c.isXMonotonic = true → MonoOn c.x 0 1 := by
+    intro h
+    have hn : c.localXExtremaT = [] := by simpa [Cubic.isXMonotonic] using h
+    exact c1_mono hsq hs0 _ _ _ _ 0 1 (le_refl _) (le_refl _)
+      (fun t ht => by have : t ∈ c.localXExtremaT := ht; rw [hn] at this; simp at this)
+  have hy : c.isYMonotonic = true → MonoOn c.y 0 1 := by
+    intro h
+    have hn : c.localYExtremaT = [] := by simpa [Cubic.isYMonotonic] using h
+    exact c1_mono hsq hs0 _ _ _ _ 0 1 (le_refl _) (le_refl _)
+      (fun t ht => by have : t ∈ c.localYExtremaT := ht; rw [hn] at this; simp at this)
+  refine ⟨hx, hy, fun h => ?_⟩
+  simp only [Cubic.isMonotonic, Bool.and_eq_true] at h
+  exact ⟨hx h.1, hy h.2⟩
 
 end cubicranges
 
@@ -726,7 +942,6 @@ section aabb
 
 variable [Transc K]
 
-
 /-- **`aabb::bounding_box` is the join of the event boxes** (before the empty-path test) … -/
 theorem aabb_fold (b0 : Box K) (evs : List (PEv K)) :
     evs.foldl Aabb.tightStep b0 = (evs.filterMap tightBox).foldl boxJoin b0 := by
@@ -736,29 +951,27 @@ theorem aabb_fold (b0 : Box K) (evs : List (PEv K)) :
     rw [List.foldl_cons, ih, tightStep_eq]
     cases h : tightBox e <;> simp [List.filterMap_cons, h]
 
-
 /-- … **and does not depend on the order of the events.** -/
 theorem aabb_fold_perm (b0 : Box K) (l1 l2 : List (PEv K)) (h : l1.Perm l2) :
     l1.foldl Aabb.tightStep b0 = l2.foldl Aabb.tightStep b0 := by
   rw [aabb_fold, aabb_fold]
   exact (h.filterMap tightBox).foldl_eq' (fun x _ y _ z => join_right_comm z x y) b0
 
-
-/-- **The path box contains every point of every segment (`_partial`).**  For every quadratic
-event of the path and every `t ∈ [0,1]` the sampled point lies in `aabb::bounding_box`, and every
-`begin`/`line_to` endpoint does.  Hypothesis `hne`: the accumulated minimum is not the sentinel
-`(MAX, MAX)` — lyon returns the zero box in that case (empty path; also a path sitting exactly at
-`f32::MAX`, for which the statement is false).  Cubic events: the cubic's own box is inside the
-path box (`aabb_fold` + `foldl_join_inside`); that the cubic's box contains the cubic between
-critical points is not a theorem (see `cubic_box_partial`). -/
-theorem aabb_box_contains_partial (big : K) (evs : List (PEv K))
+/-- **The path box contains every point of every segment.**  For every quadratic and cubic event
+of the path and every `t ∈ [0,1]` the sampled point lies in `aabb::bounding_box`, and every
+`begin`/`line_to` endpoint does (so every line segment does: boxes are convex).
+Hypothesis `hne`: the accumulated minimum is not the sentinel `(MAX, MAX)` — lyon returns the zero
+box in that case (the empty path; also a path sitting exactly at `f32::MAX`, which is the only
+input excluded: hence `_partial`). -/
+theorem aabb_box_contains_partial (hsq : ∀ d : K, 0 ≤ d → Transc.sqrt d * Transc.sqrt d = d)
+    (hs0 : ∀ d : K, 0 ≤ d → 0 ≤ Transc.sqrt d) (big : K) (evs : List (PEv K))
     (hne : ¬ ((evs.foldl Aabb.tightStep (Aabb.start big)).min == (⟨big, big⟩ : P K)) = true) :
     (∀ f c p, PEv.quad f c p ∈ evs → ∀ t, 0 ≤ t → t ≤ 1 →
       Box.Contains (Aabb.boundingBox big evs) (Quad.sample ⟨f, c, p⟩ t)) ∧
+    (∀ f c1 c2 p, PEv.cubic f c1 c2 p ∈ evs → ∀ t, 0 ≤ t → t ≤ 1 →
+      Box.Contains (Aabb.boundingBox big evs) (Cubic.sample ⟨f, c1, c2, p⟩ t)) ∧
     (∀ p, PEv.begin p ∈ evs → Box.Contains (Aabb.boundingBox big evs) p) ∧
-    (∀ f p, PEv.line f p ∈ evs → Box.Contains (Aabb.boundingBox big evs) p) ∧
-    (∀ f c1 c2 p, PEv.cubic f c1 c2 p ∈ evs →
-      Box.Inside (Cubic.boundingBox ⟨f, c1, c2, p⟩) (Aabb.boundingBox big evs)) := by
+    (∀ f p, PEv.line f p ∈ evs → Box.Contains (Aabb.boundingBox big evs) p) := by
   have hb : Aabb.boundingBox big evs = (evs.filterMap tightBox).foldl boxJoin (Aabb.start big) := by
     unfold Aabb.boundingBox Aabb.finish
     rw [if_neg hne, aabb_fold]
@@ -766,19 +979,113 @@ theorem aabb_box_contains_partial (big : K) (evs : List (PEv K))
     intro e he x hx
     rw [hb]
     exact (foldl_join_inside _ _).2 x (List.mem_filterMap.2 ⟨e, he, hx⟩)
-  have cont : ∀ {x b : Box K} {p : P K}, Box.Inside x b → Box.Contains x p → Box.Contains b p := by
-    intro x b p h1 h2
-    exact ⟨le_trans h1.1 h2.1, le_trans h2.2.1 h1.2.1, le_trans h1.2.2.1 h2.2.2.1, le_trans h2.2.2.2 h1.2.2.2⟩
   refine ⟨?_, ?_, ?_, ?_⟩
   · intro f c p he t h0 h1
-    exact cont (hin _ he _ rfl) (quad_box_contains ⟨f, c, p⟩ t h0 h1)
+    exact contains_mono (hin _ he _ rfl) (quad_box_contains ⟨f, c, p⟩ t h0 h1)
+  · intro f c1 c2 p he t h0 h1
+    exact contains_mono (hin _ he _ rfl) (cubic_box_contains hsq hs0 ⟨f, c1, c2, p⟩ t h0 h1)
   · intro p he
-    exact cont (hin _ he ⟨p, p⟩ rfl) ⟨le_refl _, le_refl _, le_refl _, le_refl _⟩
+    exact contains_mono (hin _ he ⟨p, p⟩ rfl) ⟨le_refl _, le_refl _, le_refl _, le_refl _⟩
   · intro f p he
-    exact cont (hin _ he ⟨p, p⟩ rfl) ⟨le_refl _, le_refl _, le_refl _, le_refl _⟩
-  · intro f c1 c2 p he
-    exact hin _ he _ rfl
+    exact contains_mono (hin _ he ⟨p, p⟩ rfl) ⟨le_refl _, le_refl _, le_refl _, le_refl _⟩
 
+/-- the invariant behind `aabb_fast_contains_exact` -/
+theorem aabb_fast_inv (evs : List (PEv K)) : ∀ (T F : Box K) (cur : Option (P K)),
+    Box.Inside T F → (∀ q, cur = some q → Box.Contains F q) → WellFormed cur evs →
+    Box.Inside (evs.foldl Aabb.tightStep T) (evs.foldl Aabb.fastStep F) := by
+  induction evs with
+  | nil => intro T F cur h _ _; exact h
+  | cons e r ih =>
+    intro T F cur hTF hcur hw
+    rw [List.foldl_cons, List.foldl_cons]
+    have pt : ∀ p : P K, Box.Inside ⟨T.min.pmin p, T.max.pmax p⟩ ⟨F.min.pmin p, F.max.pmax p⟩ ∧
+        Box.Contains (⟨F.min.pmin p, F.max.pmax p⟩ : Box K) p := by
+      intro p
+      simp only [Box.Inside, Box.Contains, P.pmin, P.pmax, emin_eq, emax_eq]
+      exact ⟨⟨min_le_min_right _ hTF.1, max_le_max_right _ hTF.2.1, min_le_min_right _ hTF.2.2.1,
+        max_le_max_right _ hTF.2.2.2⟩, min_le_right _ _, le_max_right _ _, min_le_right _ _, le_max_right _ _⟩
+    cases e with
+    | begin p =>
+      exact ih _ _ (some p) (pt p).1 (fun q hq => by cases hq; exact (pt p).2) hw
+    | end_ => exact ih _ _ cur hTF hcur hw
+    | line f p =>
+      cases cur with
+      | none => exact absurd hw (by simp [WellFormed])
+      | some q => exact ih _ _ (some p) (pt p).1 (fun q' hq => by cases hq; exact (pt p).2) hw.2
+    | quad f c p =>
+      cases cur with
+      | none => exact absurd hw (by simp [WellFormed])
+      | some q =>
+        obtain ⟨hf, hw'⟩ := hw
+        have hq := hcur q rfl
+        rw [← hf] at hq
+        have hfe := quad_fast_contains_exact (⟨f, c, p⟩ : Quad K)
+        simp only [Box.Inside, Quad.fastBoundingBox, Quad.fastBoundingRangeX, Quad.fastBoundingRangeY,
+          Quad1.fastRange, Box.ofRanges, sc_min, sc_max] at hfe
+        apply ih _ _ (some p) _ _ hw'
+        · simp only [Aabb.tightStep, Aabb.fastStep, Box.Inside, P.pmin, P.pmax, emin_eq, emax_eq]
+          refine ⟨le_min (le_trans (min_le_left _ _) hTF.1) (le_trans ?_ hfe.1),
+            max_le (le_trans hTF.2.1 (le_max_left _ _)) (le_trans hfe.2.1 ?_),
+            le_min (le_trans (min_le_left _ _) hTF.2.2.1) (le_trans ?_ hfe.2.2.1),
+            max_le (le_trans hTF.2.2.2 (le_max_left _ _)) (le_trans hfe.2.2.2 ?_)⟩
+          · exact le_min (le_min (le_trans (min_le_left _ _) hq.1) (le_trans (min_le_right _ _) (min_le_left _ _)))
+              (le_trans (min_le_right _ _) (min_le_right _ _))
+          · exact max_le (max_le (le_trans hq.2.1 (le_max_left _ _)) (le_trans (le_max_left _ _) (le_max_right _ _)))
+              (le_trans (le_max_right _ _) (le_max_right _ _))
+          · exact le_min (le_min (le_trans (min_le_left _ _) hq.2.2.1) (le_trans (min_le_right _ _) (min_le_left _ _)))
+              (le_trans (min_le_right _ _) (min_le_right _ _))
+          · exact max_le (max_le (le_trans hq.2.2.2 (le_max_left _ _)) (le_trans (le_max_left _ _) (le_max_right _ _)))
+              (le_trans (le_max_right _ _) (le_max_right _ _))
+        · intro q' hq'; cases hq'
+          simp only [Aabb.fastStep, Box.Contains, P.pmin, P.pmax, emin_eq, emax_eq]
+          exact ⟨le_trans (min_le_right _ _) (min_le_right _ _), le_trans (le_max_right _ _) (le_max_right _ _),
+            le_trans (min_le_right _ _) (min_le_right _ _), le_trans (le_max_right _ _) (le_max_right _ _)⟩
+    | cubic f c1 c2 p =>
+      cases cur with
+      | none => exact absurd hw (by simp [WellFormed])
+      | some q =>
+        obtain ⟨hf, hw'⟩ := hw
+        have hq := hcur q rfl
+        rw [← hf] at hq
+        have hfe := cubic_fast_contains_exact (⟨f, c1, c2, p⟩ : Cubic K)
+        simp only [Box.Inside, Cubic.fastBoundingBox, Cubic.fastBoundingRangeX, Cubic.fastBoundingRangeY,
+          Cubic1.fastRange, Box.ofRanges, sc_min, sc_max] at hfe
+        apply ih _ _ (some p) _ _ hw'
+        · simp only [Aabb.tightStep, Aabb.fastStep, Box.Inside, P.pmin, P.pmax, emin_eq, emax_eq]
+          refine ⟨le_min (le_trans (min_le_left _ _) hTF.1) (le_trans ?_ hfe.1),
+            max_le (le_trans hTF.2.1 (le_max_left _ _)) (le_trans hfe.2.1 ?_),
+            le_min (le_trans (min_le_left _ _) hTF.2.2.1) (le_trans ?_ hfe.2.2.1),
+            max_le (le_trans hTF.2.2.2 (le_max_left _ _)) (le_trans hfe.2.2.2 ?_)⟩
+          · exact le_min (le_min (le_min (le_trans (min_le_left _ _) hq.1)
+                (le_trans (min_le_right _ _) (min_le_left _ _)))
+              (le_trans (min_le_right _ _) (le_trans (min_le_right _ _) (min_le_left _ _))))
+              (le_trans (min_le_right _ _) (le_trans (min_le_right _ _) (min_le_right _ _)))
+          · exact max_le (max_le (max_le (le_trans hq.2.1 (le_max_left _ _))
+                (le_trans (le_max_left _ _) (le_max_right _ _)))
+              (le_trans (le_trans (le_max_left _ _) (le_max_right _ _)) (le_max_right _ _)))
+              (le_trans (le_trans (le_max_right _ _) (le_max_right _ _)) (le_max_right _ _))
+          · exact le_min (le_min (le_min (le_trans (min_le_left _ _) hq.2.2.1)
+                (le_trans (min_le_right _ _) (min_le_left _ _)))
+              (le_trans (min_le_right _ _) (le_trans (min_le_right _ _) (min_le_left _ _))))
+              (le_trans (min_le_right _ _) (le_trans (min_le_right _ _) (min_le_right _ _)))
+          · exact max_le (max_le (max_le (le_trans hq.2.2.2 (le_max_left _ _))
+                (le_trans (le_max_left _ _) (le_max_right _ _)))
+              (le_trans (le_trans (le_max_left _ _) (le_max_right _ _)) (le_max_right _ _)))
+              (le_trans (le_trans (le_max_right _ _) (le_max_right _ _)) (le_max_right _ _))
+        · intro q' hq'; cases hq'
+          simp only [Aabb.fastStep, Box.Contains, P.pmin, P.pmax, emin_eq, emax_eq]
+          exact ⟨le_trans (min_le_right _ _) (le_trans (min_le_right _ _) (min_le_right _ _)),
+            le_trans (le_trans (le_max_right _ _) (le_max_right _ _)) (le_max_right _ _),
+            le_trans (min_le_right _ _) (le_trans (min_le_right _ _) (min_le_right _ _)),
+            le_trans (le_trans (le_max_right _ _) (le_max_right _ _)) (le_max_right _ _)⟩
+
+/-- **Path level: fast ⊇ exact.**  For an event list as `Path::iter` yields it (every segment
+starts at the current point), the accumulated `aabb::fast_bounding_box` contains the accumulated
+`aabb::bounding_box`; `fast_bounding_box` never looks at `from`, it relies on the previous event
+having contributed it. -/
+theorem aabb_fast_contains_exact (big : K) (evs : List (PEv K)) (hw : WellFormed none evs) :
+    Box.Inside (evs.foldl Aabb.tightStep (Aabb.start big)) (evs.foldl Aabb.fastStep (Aabb.start big)) :=
+  aabb_fast_inv evs _ _ none (inside_refl _) (fun q hq => by cases hq) hw
 
 end aabb
 
@@ -789,14 +1096,13 @@ end aabb
 /-- `quad_box_contains` etc.: a parameter in range -/
 example : (0:ℚ) ≤ 1/3 ∧ (1/3:ℚ) ≤ 1 := by norm_num
 
-
 /-- a quadratic with a reported interior x-extremum: `(0,0) (2,1) (1,0)` has `local_x_extremum_t = 2/3` -/
 example : Quad.localXExtremumT (⟨⟨0, 0⟩, ⟨2, 1⟩, ⟨1, 0⟩⟩ : Quad ℚ) = some (2/3) := by
   show Quad1.localExt (0:ℚ) 2 1 = some (2/3)
   rw [q1_localExt_some]; norm_num
 
-
-/-- `AngleLaws` holds for the toy instance (so the arc theorems are not vacuous) -/
+/-- `AngleLaws` holds for the toy `Transc ℚ` (π := 22/7, `fmod x y := x − y⌊x/y⌋`), so the arc
+theorems are not vacuous -/
 example : @AngleLaws ℚ _ _ _ toyTransc := by
   letI := toyTransc
   have hτ : (0:ℚ) < 22/7 + 22/7 := by norm_num
@@ -822,27 +1128,48 @@ example : @AngleLaws ℚ _ _ _ toyTransc := by
     show _ = x + ((-⌊x / (22/7 + 22/7)⌋ : ℤ) : ℚ) * (22/7 + 22/7)
     push_cast; ring
 
+/-- a `Transc ℝ` whose `sqrt` is the real square root (everything else is irrelevant here) -/
+noncomputable def realSqrtTransc : Transc ℝ where
+  sqrt := Real.sqrt
+  cbrt := fun _ => 0
+  sin := fun _ => 0
+  cos := fun _ => 0
+  tan := fun _ => 0
+  acos := fun _ => 0
+  atan2 := fun _ _ => 0
+  pow := fun _ _ => 0
+  log2 := fun _ => 0
+  ln := fun _ => 0
+  floor := fun x => x
+  ceil := fun x => x
+  toNat := fun _ => 0
+  fmod := fun x _ => x
+  eps := 0
+  pi := 0
+  isNaN := fun _ => false
+  isFinite := fun _ => true
 
-/-- the `sqrt` law used by the cubic theorems holds e.g. at `d = 4` for the toy instance, and the
-side conditions of the arc witnesses (`tan 0 = 0`, `cos 0 = 1`, `sin 0 = 0`) hold there too -/
-example : toyTransc.sqrt 4 * toyTransc.sqrt 4 = 4 ∧ toyTransc.tan 0 = 0 ∧ toyTransc.cos 0 = 1 ∧
-    toyTransc.sin 0 = 0 := by
-  refine ⟨?_, rfl, ?_, rfl⟩
-  · show (if (4:ℚ) = 4 then (2:ℚ) else 0) * (if (4:ℚ) = 4 then (2:ℚ) else 0) = 4
-    norm_num
-  · show (if (0:ℚ) = 0 then (1:ℚ) else 0) = 1
-    norm_num
+/-- the two `sqrt` laws assumed by the cubic theorems hold for the real square root -/
+example : (∀ d : ℝ, 0 ≤ d → realSqrtTransc.sqrt d * realSqrtTransc.sqrt d = d) ∧
+    (∀ d : ℝ, 0 ≤ d → 0 ≤ realSqrtTransc.sqrt d) :=
+  ⟨fun _ h => Real.mul_self_sqrt h, fun d _ => Real.sqrt_nonneg d⟩
 
-
-/-- a cubic coordinate with two interior critical points: `0, 3, -2, 1` has derivative
-`3(13 t² − 16 t + 3)... ` — here simply: the derivative is not identically zero -/
+/-- a cubic coordinate whose derivative is not identically zero (side condition of `cubic_critical_roots`) -/
 example : Cubic1.ca (0:ℚ) 3 (-2) 1 ≠ 0 ∨ Cubic1.cb (0:ℚ) 3 (-2) ≠ 0 := by
   left; rw [c1_ca]; norm_num
 
+/-- `cubic_root_form`: `a = 1, b = -3, c = 2` (roots 1 and 2), `s = 1` -/
+example : (1:ℚ) ≠ 0 ∧ (1:ℚ) * 1 = (-3) * (-3) - 4 * 1 * 2 ∧ (0:ℚ) < 1 := by norm_num
 
-/-- a positive-sweep arc and a parameter in range (hypotheses of the `_pos_partial` theorems) -/
-example : (0:ℚ) < 2 ∧ (2:ℚ) ≤ 22/7 + 22/7 ∧ (0:ℚ) ≤ 1/4 ∧ (1/4:ℚ) < 1 := by norm_num
+/-- arcs of both sweep signs within one turn, and a parameter in range (`arc_extremum_params`) -/
+example : (2:ℚ) ≠ 0 ∧ |(2:ℚ)| ≤ 22/7 + 22/7 ∧ (-2:ℚ) ≠ 0 ∧ |(-2:ℚ)| ≤ 22/7 + 22/7 ∧ (0:ℚ) < 1/4 ∧ (1/4:ℚ) < 1 := by
+  refine ⟨by norm_num, ?_, by norm_num, ?_, by norm_num, by norm_num⟩
+  · rw [abs_of_pos (by norm_num)]; norm_num
+  · rw [abs_of_neg (by norm_num)]; norm_num
 
+/-- a well-formed event list (`aabb_fast_contains_exact`) -/
+example : WellFormed (K := ℚ) none
+    [PEv.begin ⟨0, 0⟩, PEv.line ⟨0, 0⟩ ⟨1, 0⟩, PEv.quad ⟨1, 0⟩ ⟨2, 1⟩ ⟨1, 2⟩, PEv.end_] := by
+  simp [WellFormed]
 
 end Lyon.C11
-
